@@ -26,6 +26,10 @@ ASSUMPTIONS = [
     "while SortVersions has no tie-break (F-C12-1 open) permutation invariance for Maven/PyPI is decided under the side condition "
     "that no two different spellings compare equal; inside that condition, and everywhere once the finding is closed, a "
     "difference is a violation",
+    "3% of the lists hold one version string twice with different attributes (inside the quantifier; the permutation theorems "
+    "assume distinct strings): order-dependence there is the open finding F-C12-3",
+    "lists on whose table Go's comparator is not lawful (hypothesis of the theorems) are counted (laws:false) and sent to the "
+    "oracle only; MatchRequirement's caller slice is re-read after the call and must be untouched",
     "the variant of match.go (latest by tag or by substring, matchRequirement sorting or not, tie-break or not) is detected on every "
     "run by replaying the recorded witnesses on the Go code; the correspondence runs the model in that variant",
 ]
@@ -51,26 +55,19 @@ MANIFEST = dict(
 TAGSETS = cc.TAGSETS + [b"latest-2", b"canary,notlatest"]
 
 
-def rand_version(rng, s, safe=False):
-    """safe: no two different results compare equal (three numeric components, no neutral qualifier)"""
-    core = "%d.%d.%d" % (rng.choice([0, 1, 1, 2, 3, 10]), rng.randrange(0, 4), rng.randrange(1 if safe else 0, 12))
-    if s == NPM:
-        suf = rng.choice(["", "", "", "-alpha", "-beta.%d" % rng.randrange(3), "-rc.1", "+b%d" % rng.randrange(3), "-0"])
-    elif s == MAVEN:
-        suf = rng.choice(["", "", "", "-alpha", "-beta-%d" % rng.randrange(1, 3), "-SNAPSHOT", "-rc1"] + ([] if safe else [".Final"]))
-    else:
-        suf = rng.choice(["", "", "", "a1", "b%d" % rng.randrange(3), "rc1", ".dev0", ".post%d" % rng.randrange(3)])
-    return (core + suf).encode()
+rand_version = cc.rand_version
 
 
-def gen_list(rng, s):
+def gen_list(rng, s, repeat=True):
+    """version records of one package.  3% of the lists (repeat=True) hold one version string
+    twice, with different attributes: the quantifier says all finite lists of version records."""
     r = rng.random()
     if r < 0.05:
         n = 0
     elif r < 0.85:
         n = rng.randrange(1, 11)
     else:
-        n = rng.randrange(11, 31)
+        n = rng.randrange(11, 41)
     strs = []
     pool = cc.VERSIONS[s]
     # long lists leave Go's insertion sort; keep most of them free of equal-but-distinct spellings so
@@ -96,6 +93,12 @@ def gen_list(rng, s):
         if rng.random() < 0.1:
             attrs.append([cc.V_REGISTRIES, b"r1"])
         recs.append([v, CONCRETE, attrs])
+    if repeat and recs and rng.random() < 0.03:
+        v, vt, attrs = rng.choice(recs)
+        other = [a for a in attrs if a[0] != cc.V_TAGS] + [[cc.V_TAGS, rng.choice([b"latest", b"next", b"dup", b"latest,dup"])]]
+        if cc.attrs_dump(other) == cc.attrs_dump(attrs):
+            other = other + [[cc.V_REGISTRIES, b"other"]]
+        recs.insert(rng.randrange(len(recs) + 1), [v, vt, other])
     return recs
 
 
@@ -117,8 +120,13 @@ def gen_req(rng, s, recs):
     return rng.choice(cc.REQUIREMENTS[s])
 
 
-def dumped(recs):
-    return [[v, vt, cc.attrs_dump(a)] for v, vt, a in recs]
+def dumped(recs, s):
+    return [[v, vt, cc.attrs_dump(a), s, b"p"] for v, vt, a in recs]
+
+
+def repeated(recs):
+    strs = [r[0] for r in recs]
+    return len(set(strs)) != len(strs)
 
 
 def shuffles(rng, n, k=5):
@@ -137,9 +145,15 @@ def known(ctx, fid, what, payload, observed, required):
                            "kind": "oracle", "known": fid})
 
 
+F3 = ("a list that holds one version string twice with different attributes: the two records are not separated by "
+      "any comparator, the result depends on their order in the input")
+
+
 def check_sortv(ctx, s, recs, tab, perms, outs):
-    want_set = sorted(map(repr, dumped(recs)))
+    d = dumped(recs, s)
+    want_set = sorted(map(repr, d))
     strs = [r[0] for r in recs]
+    rep = repeated(recs)
     in_quant = s == NPM or all(tab.parses(s, v) for v in strs)
     results = []
     for p, line in zip(perms, outs):
@@ -155,9 +169,11 @@ def check_sortv(ctx, s, recs, tab, perms, outs):
         if not in_quant:
             continue
         if s == NPM:
-            want = cc.npm_order(tab, dumped(recs))
+            want = cc.npm_order(tab, [d[i] for i in p])     # (python sorts stably: only matters for a repeated string)
             if got != want:
-                if got == cc.npm_order(tab, dumped(recs), exact_tag=False):
+                if rep:
+                    known(ctx, "F-C12-3", F3, payload, line, sx(want))
+                elif got == cc.npm_order(tab, d, exact_tag=False):
                     known(ctx, "F-C12-2", "npm order: latest-tag repositioning applied to a version not tagged latest",
                           payload, line, sx(want))
                 else:
@@ -169,8 +185,11 @@ def check_sortv(ctx, s, recs, tab, perms, outs):
             return
     if in_quant and any(r != results[0] for r in results):
         payload = {"system": s, "versions": sx(recs), "orders": perms,
-                   "comparator_laws_hold_on_list": cc.laws_hold(lambda a, b: cc.gen_cmp(tab, s, a, b), strs)}
-        if s != NPM and cc.equal_distinct(tab, s, strs):
+                   "replay_cases": ["sortv\t" + sx([[], s, recs, p]) for p in perms[:2]],
+                   "comparator_laws_hold_on_list": cc.table_lawful(tab, s, strs)}
+        if rep:
+            known(ctx, "F-C12-3", F3, payload, sx(results), None)
+        elif s != NPM and cc.equal_distinct(tab, s, strs):
             known(ctx, "F-C12-1", "SortVersions depends on the input order for versions that compare equal but are spelled differently",
                   payload, sx(results), None)
         else:
@@ -178,54 +197,83 @@ def check_sortv(ctx, s, recs, tab, perms, outs):
 
 
 def check_matchreq(ctx, s, req, recs, tab, perms, outs):
-    d = dumped(recs)
+    d = dumped(recs, s)
     strs = [r[0] for r in recs]
+    rep = repeated(recs)
     in_quant = s == NPM or all(tab.parses(s, v) for v in strs)
-    if not in_quant:
-        return
     results = []
     for p, line in zip(perms, outs):
-        got = parse_sx(line)
-        results.append(got)
+        both = parse_sx(line)
         payload = {"system": s, "requirement": sx(req), "versions": sx(recs), "order": p,
                    "replay_case": "matchreq\t" + sx([[], s, req, recs, p])}
-        if got == [b"panic"]:
+        if both == [b"panic"]:
             ctx.violation("MatchRequirement panics", payload, observed=line)
             return
+        got, after = both
+        inp = [d[i] for i in p]
+        if after != inp:
+            # the list may be in any order and is documented as sorted in a copy: the caller keeps its order
+            ctx.violation("MatchRequirement changed the caller's slice", payload, observed=sx(after), required=sx(inp))
+            return
+        if not in_quant:
+            continue
+        results.append(got)
         if s == NPM:
-            want = cc.expected_matches(tab, s, req, cc.npm_order(tab, d))
+            want = cc.expected_matches(tab, s, req, cc.npm_order(tab, inp))
             if got != want:
                 pinned = cc.expected_matches(tab, s, req, cc.npm_order(tab, d, exact_tag=False))
-                if got == pinned:
+                if rep and sorted(map(repr, got)) == sorted(map(repr, want)):
+                    known(ctx, "F-C12-3", F3, payload, sx(got), sx(want))
+                elif got == pinned:
                     known(ctx, "F-C12-2", "npm match order: latest-tag repositioning applied to a version not tagged latest",
-                          payload, line, sx(want))
+                          payload, sx(got), sx(want))
                 else:
                     ctx.violation("MatchRequirement (npm): not exactly the satisfying versions in npm order", payload,
-                                  observed=line, required=sx(want))
+                                  observed=sx(got), required=sx(want))
                 return
         else:
             sat = [r for r in d if cc.satisfies(tab, s, req, r)]
             if sorted(map(repr, got)) != sorted(map(repr, sat)):
                 ctx.violation("MatchRequirement: not exactly the versions that satisfy the requirement", payload,
-                              observed=line, required=sx(sat))
+                              observed=sx(got), required=sx(sat))
                 return
             if not cc.ascending(tab, s, got):
-                inp = [d[i] for i in p]
                 if got == [r for r in inp if cc.satisfies(tab, s, req, r)]:
                     known(ctx, "F-C12-1b", "MatchRequirement (Maven/PyPI) returns the matches in input order, not ascending",
-                          payload, line, None)
+                          payload, sx(got), None)
                 else:
-                    ctx.violation("MatchRequirement: result not ascending", payload, observed=line)
+                    ctx.violation("MatchRequirement: result not ascending", payload, observed=sx(got))
                 return
-    if any(r != results[0] for r in results):
-        payload = {"system": s, "requirement": sx(req), "versions": sx(recs), "orders": perms}
-        if s != NPM and all(r == [x for x in [d[i] for i in p] if cc.satisfies(tab, s, req, x)] for r, p in zip(results, perms)):
+    if results and any(r != results[0] for r in results):
+        payload = {"system": s, "requirement": sx(req), "versions": sx(recs), "orders": perms,
+                   "replay_cases": ["matchreq\t" + sx([[], s, req, recs, p]) for p in perms[:2]]}
+        if rep:
+            known(ctx, "F-C12-3", F3, payload, sx(results), None)
+        elif s != NPM and all(r == [x for x in [d[i] for i in p] if cc.satisfies(tab, s, req, x)] for r, p in zip(results, perms)):
             known(ctx, "F-C12-1b", "MatchRequirement (Maven/PyPI) result depends on the order of the input list", payload, sx(results), None)
         elif s != NPM and cc.equal_distinct(tab, s, strs):
             known(ctx, "F-C12-1", "MatchRequirement (Maven/PyPI) depends on the input order for versions that compare equal but are "
                   "spelled differently", payload, sx(results), None)
         else:
-            ctx.violation("MatchRequirement (npm): result depends on the order of the input list", payload, observed=sx(results))
+            ctx.violation("MatchRequirement: result depends on the order of the input list", payload, observed=sx(results))
+
+
+def routed(ctx, kind, cases, lawful, label=None):
+    """model and implementation side by side where the hypothesis of the theorems on the semver layer
+    holds on the case's table (laws_ok); the other cases go to the oracle only.  Returns the
+    implementation's outputs for all cases and (case, model output) for the compared ones."""
+    idx = [i for i, ok in enumerate(lawful) if ok]
+    rest = [i for i, ok in enumerate(lawful) if not ok]
+    impl = [None] * len(cases)
+    o1, o2 = ctx.correspond(kind, [cases[i] for i in idx], label=label)
+    for i, x in zip(idx, o1):
+        impl[i] = x
+    if rest:
+        for i, x in zip(rest, ctx.impl(kind, [cases[i] for i in rest])):
+            impl[i] = x
+    ctx.count("laws:true", len(idx))
+    ctx.count("laws:false (oracle only)", len(rest))
+    return impl, [(cases[i], m) for i, m in zip(idx, o2)]
 
 
 def client_phases(rng, s, recs):
@@ -273,7 +321,7 @@ def check_client(tab, s, ops, obs):
     oi = 0
     for n, o in enumerate(ops):
         if o[0] == 0:
-            store[o[4]] = [o[4], o[3], cc.attrs_dump(o[5])]
+            store[o[4]] = [o[4], o[3], cc.attrs_dump(o[5]), o[1], o[2]]
             continue
         got = obs[oi]
         oi += 1
@@ -324,17 +372,21 @@ def run(ctx):
         lists.append((s, recs, shuffles(rng, len(recs))))
     tabs = cc.request_tables(ctx, [{s: ([r[0] for r in recs], [])} for s, recs, _ in lists])
     cases = [sx([t.parsed, s, recs, p, cfg]) for (s, recs, perms), t in zip(lists, tabs) for p in perms]
-    impl, model = ctx.correspond("sortv", cases)
-    kc = [("sortv", c, m) for c, m in zip(cases, model) if '"oom"' not in m][:400:10]
+    lawful = [ok for (s, recs, perms), t in zip(lists, tabs)
+              for ok in [cc.table_lawful(t, s, [r[0] for r in recs])] for p in perms]
+    impl, compared = routed(ctx, "sortv", cases, lawful)
+    kc = [("sortv", c, m) for c, m in compared if '"oom"' not in m][:400:10]
     k = 0
     for (s, recs, perms), t in zip(lists, tabs):
         outs = impl[k:k + len(perms)]
         k += len(perms)
         ctx.count("sortv:len<=12" if len(recs) <= 12 else "sortv:len>12")
+        if repeated(recs):
+            ctx.count("sortv:repeated_string")
         strs = [r[0] for r in recs]
         if s == NPM and any(not t.parses(s, v) for v in strs):
             ctx.count("sortv:npm_with_unparsable")
-        if any(b"latest" in cc.tags_of(r) for r in dumped(recs)):
+        if any(b"latest" in cc.tags_of(r) for r in dumped(recs, s)):
             ctx.count("sortv:with_latest")
         if s != NPM and all(t.parses(s, v) for v in strs) and cc.equal_distinct(t, s, strs):
             ctx.count("sortv:equal_distinct")
@@ -350,8 +402,10 @@ def run(ctx):
         lists.append((s, gen_req(rng, s, recs), recs, shuffles(rng, len(recs))))
     tabs = cc.request_tables(ctx, [{s: ([r[0] for r in recs], [req])} for s, req, recs, _ in lists])
     cases = [sx([t.parsed, s, req, recs, p, cfg]) for (s, req, recs, perms), t in zip(lists, tabs) for p in perms]
-    impl, model = ctx.correspond("matchreq", cases)
-    kc += [("matchreq", c, m) for c, m in zip(cases, model) if '"oom"' not in m][:400:10]
+    lawful = [ok for (s, req, recs, perms), t in zip(lists, tabs)
+              for ok in [cc.table_lawful(t, s, [r[0] for r in recs])] for p in perms]
+    impl, compared = routed(ctx, "matchreq", cases, lawful)
+    kc += [("matchreq", c, m) for c, m in compared if '"oom"' not in m][:400:10]
     lib.kernel_crosscheck(ctx, kc, maxn=80)
     k = 0
     for (s, req, recs, perms), t in zip(lists, tabs):
@@ -359,7 +413,7 @@ def run(ctx):
         k += len(perms)
         ok = t.constraint_ok(s, req)
         ctx.count("matchreq:constraint" if ok else "matchreq:not_a_constraint")
-        nm = sum(1 for r in dumped(recs) if cc.satisfies(t, s, req, r))
+        nm = sum(1 for r in dumped(recs, s) if cc.satisfies(t, s, req, r))
         ctx.count("matchreq:some_match" if nm else "matchreq:no_match")
         check_matchreq(ctx, s, req, recs, t, perms, outs)
         if len(recs) >= 3 and 0 < nm < len(recs):
@@ -378,7 +432,7 @@ def run(ctx):
     hists = []
     for i in range(nh):
         s = cc.SYSTEMS[i % 3]
-        recs = gen_list(rng, s)
+        recs = gen_list(rng, s, repeat=False)     # keys of a client are distinct: a repeated key is a replacement (above)
         tail, reqs = client_phases(rng, s, recs)
         hists.append((s, reqs, recs, tail, shuffles(rng, len(recs))))
     tabs = cc.request_tables(ctx, [{s: ([r[0] for r in recs] + [o[4] for o in tail if o[0] == 0], reqs)}
@@ -388,7 +442,9 @@ def run(ctx):
         for p in perms:
             ops = [[0, s, b"p", CONCRETE, recs[i][0], recs[i][2], []] for i in p] + tail
             cases.append(sx([variant, t.parsed, ops]))
-    impl, _ = ctx.correspond("client_history", cases, label="client_matching")
+    lawful = [ok for (s, reqs, recs, tail, perms), t in zip(hists, tabs)
+              for ok in [cc.table_lawful(t, s, [r[0] for r in recs] + [o[4] for o in tail if o[0] == 0])] for p in perms]
+    impl, _ = routed(ctx, "client_history", cases, lawful, label="client_matching")
     k = 0
     for (s, reqs, recs, tail, perms), t in zip(hists, tabs):
         lines = impl[k:k + len(perms)]
